@@ -28,6 +28,7 @@ fn main() {
     let code = match args.as_slice() {
         [cmd, file] if cmd == "replay" => replay(file),
         [cmd, file] if cmd == "gen-worker" => c12::gen_worker(file),
+        [cmd, file] if cmd == "show" => c01::show(file),
         [cmd] if cmd == "worker" => worker::worker_main(),
         [id, tier] => {
             let tier = match tier.as_str() {
